@@ -65,13 +65,24 @@ type GVal struct {
 }
 
 type State struct {
-	cells map[*Cell]*Term
-	heap  map[string]*Term
-	ghost map[string]*Term
+	cells  map[*Cell]*Term
+	heap   map[string]*Term
+	ghost  map[string]*Term
+	frozen map[*Cell]bool // cells whose content escaped as an immutable value on this path
+}
+
+func (s *State) freeze(c *Cell) {
+	if s.frozen == nil {
+		s.frozen = map[*Cell]bool{}
+	}
+	s.frozen[c] = true
 }
 
 func (s *State) clone() *State {
-	n := &State{cells: map[*Cell]*Term{}, heap: map[string]*Term{}, ghost: map[string]*Term{}}
+	n := &State{cells: map[*Cell]*Term{}, heap: map[string]*Term{}, ghost: map[string]*Term{}, frozen: map[*Cell]bool{}}
+	for k, v := range s.frozen {
+		n.frozen[k] = v
+	}
 	for k, v := range s.cells {
 		n.cells[k] = v
 	}
@@ -374,7 +385,7 @@ func (fr *Frame) term(v *GVal) *Term {
 			}
 			// pointer to a local cell escapes as a value
 			if pe, ok := p.Cell.typ.Underlying().(*types.Basic); ok && pe.Kind() == types.Int {
-				p.Cell.frozen = true
+				ex.st.freeze(p.Cell)
 				return App("pref", w.pintSort(), ex.st.cells[p.Cell])
 			}
 		}
@@ -387,7 +398,7 @@ func (fr *Frame) term(v *GVal) *Term {
 		es := w.SliceInfoOfSort(w.SortOf(v.Typ)).Elem
 		if v.Reg != nil {
 			if !fr.noFreeze {
-				v.Reg.frozen = true
+				ex.st.freeze(v.Reg)
 			}
 			base = ex.st.cells[v.Reg]
 		} else {
@@ -405,7 +416,7 @@ func (fr *Frame) term(v *GVal) *Term {
 	if v.T == nil && v.Origin != nil {
 		// a map (or slice) living in a local cell, used as a value: snapshot
 		if v.Origin.Cell != nil && !fr.noFreeze {
-			v.Origin.Cell.frozen = true
+			ex.st.freeze(v.Origin.Cell)
 		}
 		return fr.load(v.Origin)
 	}
@@ -593,7 +604,7 @@ func (fr *Frame) store(p *Ptr, v *Term, pos token.Pos) {
 	}
 	switch {
 	case p.Cell != nil:
-		if p.Cell.frozen {
+		if st.frozen[p.Cell] {
 			ex.unsupp("write to cell %s after it escaped as a value", p.Cell.name)
 		}
 		st.cells[p.Cell] = fr.writePath(st.cells[p.Cell], p.Path, v)
@@ -854,7 +865,14 @@ func (fr *Frame) mergeStates(preds []*ssa.BasicBlock, b *ssa.BasicBlock) *State 
 	if len(preds) == 1 {
 		return fr.out[preds[0]].clone()
 	}
-	st := &State{cells: map[*Cell]*Term{}, heap: map[string]*Term{}, ghost: map[string]*Term{}}
+	st := &State{cells: map[*Cell]*Term{}, heap: map[string]*Term{}, ghost: map[string]*Term{}, frozen: map[*Cell]bool{}}
+	for _, p := range preds {
+		for c, f := range fr.out[p].frozen {
+			if f {
+				st.frozen[c] = true
+			}
+		}
+	}
 	// cells: only those live in all preds
 	first := fr.out[preds[0]]
 	for c := range first.cells {
